@@ -156,6 +156,11 @@ func (dec *tomlDecoder) createBoolScalar(tomlNode *toml.Node) (*CandidateNode, e
 
 func (dec *tomlDecoder) createIntegerScalar(tomlNode *toml.Node) (*CandidateNode, error) {
 	content := string(tomlNode.Data)
+	if bytes.HasPrefix(tomlNode.Data, []byte("0b")) {
+		// binary integers are TOML, not YAML: keep the value, write it in decimal
+		num, err := strconv.ParseInt(string(bytes.ReplaceAll(tomlNode.Data[2:], []byte("_"), nil)), 2, 64)
+		return createScalarNode(num, strconv.FormatInt(num, 10)), err
+	}
 	_, num, err := parseInt64(content)
 	return createScalarNode(num, content), err
 }
